@@ -23,6 +23,10 @@ def run_one(run, timeout):
     kw = {}
     if cfg.get("decision") is not None:
         kw["decision_domains"] = cfg["decision"]
+    if cfg.get("vparams"):
+        kw["var_heuristic_params"] = cfg["vparams"]
+    if cfg.get("dparams"):
+        kw["dom_heuristic_params"] = cfg["dparams"]
     out = {"ok": "ok", "sols": [], "opt": [1, 0], "stats": []}
     signal.setitimer(signal.ITIMER_REAL, timeout)
     try:
